@@ -254,7 +254,7 @@ def check(pid, tier, seed):
     if model_ok:
         facts = json.load(open(facts_path))
         rng = random.Random(seed)
-        ctx = props.Ctx(facts=facts, rng=rng, tier=eff_tier, seed=seed)
+        ctx = props.Ctx(facts=facts, rng=rng, tier=eff_tier, seed=seed, spec_eval=run_model)
         cases = list(P["streams"](ctx))
         # corpus of minimised past disagreements first
         corpus = os.path.join(ROOT, "corpus", pid + ".jsonl")
